@@ -120,6 +120,17 @@ func (o *tiInput) ExpectedFaults() []string { return faultKinds }
 
 func pickProgram(c *Ctx, r *Rng, ties bool) ([]byte, string) {
 	switch k := r.Intn(20); {
+	case k >= 17 && r.Chance(1, 2):
+		switch r.Intn(4) {
+		case 0:
+			return hierarchyProgram(r), "hierarchy"
+		case 1:
+			return bigLiteralProgram(r), "big-literals"
+		case 2:
+			return aliasChainProgram(r), "alias-chains"
+		default:
+			return cyclicProgram(r), "cyclic"
+		}
 	case k < 1:
 		// a long file: several corpus programs back to back (size-dependent behaviour)
 		var b []byte
@@ -143,12 +154,134 @@ func pickProgram(c *Ctx, r *Rng, ties bool) ([]byte, string) {
 	}
 }
 
+// hierarchyProgram builds deep and wide acyclic class / module hierarchies: chains, fans and
+// diamonds (every module of a level includes several modules of the level below), up to 30
+// levels, sometimes with names that collide with builtin frames and classes; then looks
+// methods, variables and constants up through them.
+func hierarchyProgram(r *Rng) []byte {
+	var sb strings.Builder
+	levels := r.Range(2, 30)
+	width := r.Range(1, 3)
+	if levels > 12 && width == 3 {
+		width = 2
+	}
+	special := []string{"Builtin", "Kernel", "Object", "Comparable", "Integer", "String", "Enumerable"}
+	name := func(l, w int) string {
+		if l == 0 && r.Chance(1, 8) {
+			return special[(w+levels)%len(special)]
+		}
+		return fmt.Sprintf("H%d%c", l, 'a'+w)
+	}
+	useClass := r.Chance(1, 3)
+	for l := 0; l < levels; l++ {
+		for w := 0; w < width; w++ {
+			kind := "module"
+			if useClass && w == 0 {
+				kind = "class"
+			}
+			head := kind + " " + name(l, w)
+			if kind == "class" && l > 0 {
+				head += " < " + name(l-1, 0)
+			}
+			sb.WriteString(head + "\n")
+			if l > 0 {
+				for p := 0; p < width; p++ {
+					if kind == "class" && p == 0 {
+						continue
+					}
+					if r.Chance(3, 4) {
+						sb.WriteString("  " + r.Pick([]string{"include", "include", "extend"}) + " " + name(l-1, p) + "\n")
+					}
+				}
+			}
+			switch r.Intn(5) {
+			case 0:
+				fmt.Fprintf(&sb, "  def m%d\n    @v%d = %d\n    v = @v%d\n    v\n  end\n", l, l, l, l)
+			case 1:
+				fmt.Fprintf(&sb, "  K%d = %d\n", l, l)
+			case 2:
+				fmt.Fprintf(&sb, "  def self.s%d(x)\n    x\n  end\n", l)
+			}
+			sb.WriteString("end\n")
+		}
+	}
+	top := name(levels-1, 0)
+	fmt.Fprintf(&sb, "class Leaf\n  include %s\n  def go\n    q = 1\n    @w = q\n    m0\n    m%d\n    missing_one\n  end\nend\n", top, levels-1)
+	fmt.Fprintf(&sb, "x = Leaf.new\nx.go\nx.m%d\nLeaf::K0\nx.nope(1)\n", r.Intn(levels))
+	return []byte(sb.String())
+}
+
+// bigLiteralProgram: literals, parameter lists, call chains and nestings that are larger
+// than anything in the corpus (fixed-size buffers, quadratic passes).
+func bigLiteralProgram(r *Rng) []byte {
+	var sb strings.Builder
+	n := r.Range(15, 70)
+	elems := func(k int, f func(i int) string) string {
+		var xs []string
+		for i := 0; i < k; i++ {
+			xs = append(xs, f(i))
+		}
+		return strings.Join(xs, ", ")
+	}
+	switch r.Intn(8) {
+	case 0:
+		fmt.Fprintf(&sb, "a = [[%s]]\na.each do |k, v| puts k end\n", elems(n, func(i int) string { return fmt.Sprint(i) }))
+	case 1:
+		fmt.Fprintf(&sb, "a = [%s]\na.each { |x| p x }\nb = a.map { |x| x.to_s }\np b\n", elems(n, func(i int) string { return []string{"1", "'s'", ":s", "1.5", "nil", "[1]"}[i%6] }))
+	case 2:
+		fmt.Fprintf(&sb, "h = {%s}\nh.each do |k, v| p k end\np h[:k3]\n", elems(n, func(i int) string { return fmt.Sprintf("k%d: %d", i, i) }))
+	case 3:
+		fmt.Fprintf(&sb, "def many(%s)\n  p0\nend\nmany(%s)\nmany(1)\n", elems(n, func(i int) string { return fmt.Sprintf("p%d", i) }), elems(n, func(i int) string { return fmt.Sprint(i) }))
+	case 4:
+		sb.WriteString("x = 'a'" + strings.Repeat(".to_s", n) + "\np x\ny = 1" + strings.Repeat(".abs", n) + "\n")
+	case 5:
+		sb.WriteString("x = " + strings.Repeat("(", n) + "1" + strings.Repeat(")", n) + "\np x\ny = " + strings.Repeat("[", n) + strings.Repeat("]", n) + "\n")
+	case 6:
+		for i := 0; i < n/3+2; i++ {
+			sb.WriteString(strings.Repeat("  ", i) + "if x" + fmt.Sprint(i) + "\n")
+		}
+		sb.WriteString(strings.Repeat("  ", n/3+2) + "p 1\n")
+		for i := n/3 + 1; i >= 0; i-- {
+			sb.WriteString(strings.Repeat("  ", i) + "end\n")
+		}
+	default:
+		fmt.Fprintf(&sb, "a, %s = %s\np a\ns = \"%s\"\np s\n", elems(n/2, func(i int) string { return fmt.Sprintf("b%d", i) }), elems(n/2+1, func(i int) string { return fmt.Sprint(i) }), strings.Repeat("x#{1}", n))
+	}
+	return []byte(sb.String())
+}
+
+// aliasChainProgram: method bodies made of assignments between a few identifiers, defined
+// or not yet defined, returning one of them (identifier chains, with tails and cycles).
+func aliasChainProgram(r *Rng) []byte {
+	var sb strings.Builder
+	ids := []string{"w", "x", "y", "z", "u"}[:r.Range(2, 5)]
+	for d := 0; d < r.Range(1, 3); d++ {
+		fmt.Fprintf(&sb, "def a%d\n", d)
+		for k := 0; k < r.Range(2, 7); k++ {
+			rhs := r.Pick(ids)
+			if r.Chance(1, 6) {
+				rhs = r.Pick([]string{"1", "'s'", "nil", "a0", "a1"})
+			}
+			fmt.Fprintf(&sb, "  %s = %s\n", r.Pick(ids), rhs)
+		}
+		fmt.Fprintf(&sb, "  %s\nend\n", r.Pick(ids))
+	}
+	sb.WriteString("p a0\nq = a0\nq.foo\n")
+	return []byte(sb.String())
+}
+
 // cyclicProgram builds inheritance / include / extend cycles of length 1..4 plus lookups.
 func cyclicProgram(r *Rng) []byte {
 	n := 1 + r.Intn(4)
 	names := []string{"Ca", "Cb", "Cc", "Cd"}[:n]
 	var sb strings.Builder
 	viaInclude := r.Chance(1, 3)
+	// half of the time the cycle lives inside a namespace (unqualified parent names then
+	// resolve relative to the module) and is used from a method body
+	nested := r.Chance(1, 2)
+	if nested {
+		sb.WriteString("module App\n")
+	}
 	for i, nm := range names {
 		next := names[(i+1)%n]
 		kind := "class"
@@ -160,15 +293,23 @@ func cyclicProgram(r *Rng) []byte {
 		} else {
 			fmt.Fprintf(&sb, "%s %s\n  %s %s\n", kind, nm, r.Pick([]string{"include", "extend"}), next)
 		}
-		switch r.Intn(4) {
+		switch r.Intn(5) {
 		case 0:
 			sb.WriteString("  def foo\n    @v = 1\n    bar\n  end\n")
 		case 1:
 			sb.WriteString("  K = 1\n  def self.make\n    new\n  end\n")
 		case 2:
 			sb.WriteString("  attr_reader :v\n")
+		case 3:
+			sb.WriteString("  def info(m)\n    m\n    self.info(1)\n  end\n")
 		}
 		sb.WriteString("end\n")
+	}
+	if nested {
+		sb.WriteString("end\n")
+		for i := range names {
+			names[i] = "App::" + names[i]
+		}
 	}
 	for _, nm := range names {
 		switch r.Intn(5) {
@@ -206,8 +347,16 @@ func (o *tiInput) Make(c *Ctx, i int) *Case {
 	} else {
 		var src []byte
 		var origin string
-		if o.prop == "C02" && r.Chance(1, 6) {
-			src, origin = cyclicProgram(r), "cyclic"
+		if o.prop == "C02" && r.Chance(1, 4) {
+			// the shapes the property names: cyclic and deep hierarchies, identifier chains
+			switch r.Intn(3) {
+			case 0:
+				src, origin = cyclicProgram(r), "cyclic"
+			case 1:
+				src, origin = hierarchyProgram(r), "hierarchy"
+			default:
+				src, origin = aliasChainProgram(r), "alias-chains"
+			}
 		} else {
 			src, origin = pickProgram(c, r, false)
 		}
@@ -231,7 +380,7 @@ func (o *tiInput) Make(c *Ctx, i int) *Case {
 		default:
 			fk = "F6-flip"
 		}
-		if origin == "cyclic" && r.Chance(2, 3) {
+		if (origin == "cyclic" || origin == "hierarchy" || origin == "alias-chains" || origin == "big-literals") && r.Chance(2, 3) {
 			fk = ""
 		}
 		if o.prop == "C02" && fk == "F1-torn" && r.Chance(1, 3) {
